@@ -85,7 +85,7 @@ def partial(t, dim, order=1, bounds=None, periodic=False):
     if not hasattr(dim, "__len__"):
         dim = [dim]
     if bounds is None:
-        bounds = [[0, t.shape[n]] for n in range(t.dim())]
+        bounds = [[0, t.shape[d]] for d in dim]
     if not hasattr(bounds[0], "__len__"):
         bounds = [bounds]
     if not hasattr(periodic, "__len__"):
